@@ -41,7 +41,7 @@ theorem period_accepts_gMonth (e : Env) (pre post s : Str) (m : Nat) (o : Option
     rw [← hzp] at hargs
     have hsl : slice ('-' :: '-' :: ([a, b] ++ zs)) 4 6 = zs.take 2 := by simp [slice]
     unfold parsePeriod
-    simp only [hsl, htake, if_false]
+    simp only [hsl, htake, decide_false, Bool.false_and, Bool.false_eq_true, if_false]
     have hs3 : startsWith ('-' :: '-' :: ([a, b] ++ zs)) ['-', '-', '-'] = false := by
       simp [startsWith, List.isPrefixOf, hna]
     have hs2 : startsWith ('-' :: '-' :: ([a, b] ++ zs)) ['-', '-'] = true := by
@@ -86,7 +86,7 @@ theorem period_accepts_gMonthDay (e : Env) (pre post s : Str) (m d : Nat) (o : O
     have hs2 : startsWith ('-' :: '-' :: ([a, b] ++ '-' :: ([c, f] ++ zs))) ['-', '-'] = true := by
       simp [startsWith, List.isPrefixOf]
     unfold parsePeriod
-    simp only [hsl, hne, if_false, hs3, hs2, hl', Bool.false_eq_true, if_true, hargs]
+    simp only [hsl, hne, decide_false, Bool.false_and, if_false, hs3, hs2, hl', Bool.false_eq_true, if_true, hargs]
     simp [hv]
 
 /-- **period_accepts_valid (gYear)**: a negative timezone is not taken for a month separator -/
